@@ -9,7 +9,7 @@
    whitelist : call sites that cannot raise for a stated reason (each with its justification)
    out_scope : functions that are not reachable from Parser.parse with document data
    open_sites: sites of defects that are still open (each refuted by a theorem in Props/C01.v) *)
-From Coq Require Import List String Bool Arith.
+From Coq Require Import List String Ascii Bool Arith.
 From MV Require Import Exc.ExcDefs Gen.ExcFlow.
 Import ListNotations.
 Open Scope string_scope.
@@ -84,7 +84,12 @@ Definition raises : list (string * list string) := [
   ("jinja.parse", ["jinja2.exceptions.TemplateSyntaxError"]);
   ("rst.parse", []);
   ("events.emit", ["sphinx.errors.ExtensionError"]);
-  ("env.relfn2path", []);
+  (* os.path.abspath / realpath / os.access reject a path with an embedded NUL character *)
+  ("env.relfn2path", [E_Value]);
+  ("os.access", [E_Value]);
+  (* transform phase: subscripts on doctree nodes / registries, list.remove / Element.replace *)
+  ("subscript", ["KeyError"; "IndexError"; E_Type]);
+  ("list.remove", [E_Value]);
   ("domain.resolve", ["NotImplementedError"]);
   ("make_refnode", [E_NoUri]);
   ("resolve_myst_ref_any", [E_NoUri]);
@@ -198,6 +203,40 @@ Definition whitelist : list (string * string * string * nat * string) := [
    "ExtensionError wraps a failure of a third-party 'include-read' handler: an extension defect, not a document defect");
   ("myst_parser/sphinx_ext/myst_refs.py", "MystReferenceResolver.resolve_myst_ref_any", "domain.resolve", 1,
    "resolve_xref is the legacy interface that every Sphinx Domain implements");
+  ("myst_parser/mdit_to_docutils/transforms.py", "UnreferencedFootnotesDetector.apply", "subscript:node['backrefs']", 0, "docutils gives every Element the list attributes ids, classes, names, dupnames (Element.list_attributes) and footnotes 'backrefs' (set by nodes.footnote / note_*): the key always exists");
+  ("myst_parser/mdit_to_docutils/transforms.py", "UnreferencedFootnotesDetector.apply", "subscript:node['backrefs']", 1, "docutils gives every Element the list attributes ids, classes, names, dupnames (Element.list_attributes) and footnotes 'backrefs' (set by nodes.footnote / note_*): the key always exists");
+  ("myst_parser/mdit_to_docutils/transforms.py", "UnreferencedFootnotesDetector.apply", "subscript:node['backrefs']", 2, "docutils gives every Element the list attributes ids, classes, names, dupnames (Element.list_attributes) and footnotes 'backrefs' (set by nodes.footnote / note_*): the key always exists");
+  ("myst_parser/mdit_to_docutils/transforms.py", "UnreferencedFootnotesDetector.apply", "subscript:node['names']", 0, "docutils gives every Element the list attributes ids, classes, names, dupnames (Element.list_attributes) and footnotes 'backrefs' (set by nodes.footnote / note_*): the key always exists");
+  ("myst_parser/mdit_to_docutils/transforms.py", "UnreferencedFootnotesDetector.apply", "subscript:node['names']", 1, "docutils gives every Element the list attributes ids, classes, names, dupnames (Element.list_attributes) and footnotes 'backrefs' (set by nodes.footnote / note_*): the key always exists");
+  ("myst_parser/mdit_to_docutils/transforms.py", "UnreferencedFootnotesDetector.apply", "subscript:node['names']", 2, "docutils gives every Element the list attributes ids, classes, names, dupnames (Element.list_attributes) and footnotes 'backrefs' (set by nodes.footnote / note_*): the key always exists");
+  ("myst_parser/mdit_to_docutils/transforms.py", "UnreferencedFootnotesDetector.apply", "subscript:node['names']", 3, "docutils gives every Element the list attributes ids, classes, names, dupnames (Element.list_attributes) and footnotes 'backrefs' (set by nodes.footnote / note_*): the key always exists");
+  ("myst_parser/mdit_to_docutils/transforms.py", "UnreferencedFootnotesDetector.apply", "subscript:node['names'][0]", 0, "evaluated only when node['names'] is non-empty (conditional expression on the same line, inside 'if ... and node[names]')");
+  ("myst_parser/mdit_to_docutils/transforms.py", "UnreferencedFootnotesDetector.apply", "subscript:node['dupnames'][0]", 0, "unreachable: the enclosing if requires node['names'] to be non-empty, so the else branch of the conditional expression is never taken");
+  ("myst_parser/mdit_to_docutils/transforms.py", "UnreferencedFootnotesDetector.apply", "subscript:node['dupnames']", 0, "docutils gives every Element the list attributes ids, classes, names, dupnames (Element.list_attributes) and footnotes 'backrefs' (set by nodes.footnote / note_*): the key always exists");
+  ("myst_parser/mdit_to_docutils/transforms.py", "SortFootnotes.apply", "subscript:node['refname']", 0, "guarded by 'if ''refname'' in node' in the comprehension");
+  ("myst_parser/mdit_to_docutils/transforms.py", "SortFootnotes.apply._sort_key", "subscript:node['names']", 0, "docutils gives every Element the list attributes ids, classes, names, dupnames (Element.list_attributes) and footnotes 'backrefs' (set by nodes.footnote / note_*): the key always exists");
+  ("myst_parser/mdit_to_docutils/transforms.py", "SortFootnotes.apply._sort_key", "subscript:node['names']", 1, "docutils gives every Element the list attributes ids, classes, names, dupnames (Element.list_attributes) and footnotes 'backrefs' (set by nodes.footnote / note_*): the key always exists");
+  ("myst_parser/mdit_to_docutils/transforms.py", "SortFootnotes.apply._sort_key", "subscript:node['names']", 2, "docutils gives every Element the list attributes ids, classes, names, dupnames (Element.list_attributes) and footnotes 'backrefs' (set by nodes.footnote / note_*): the key always exists");
+  ("myst_parser/mdit_to_docutils/transforms.py", "SortFootnotes.apply._sort_key", "subscript:node['names'][0]", 0, "guarded by the truthiness test of node['names'] at the start of the condition");
+  ("myst_parser/mdit_to_docutils/transforms.py", "SortFootnotes.apply._sort_key", "subscript:node['names'][0]", 1, "guarded by the truthiness test of node['names'] at the start of the condition");
+  ("myst_parser/mdit_to_docutils/transforms.py", "CollectFootnotes.apply", "subscript:footnote.children[0]", 0, "every footnote of document.footnotes / autofootnotes / symbol_footnotes has a label as first child: manual ones get it in render_footnote_reference, auto-numbered ones from docutils' Footnotes transform (priority 620, this transform runs at 623)");
+  ("myst_parser/mdit_to_docutils/transforms.py", "CollectFootnotes.apply", "list.remove:footnote.parent", 0, "the footnote is a child of its parent (parent pointers are maintained by docutils' Element.append / remove)");
+  ("myst_parser/mdit_to_docutils/transforms.py", "ResolveAnchorIds.apply", "subscript:self.document.nameids[name]", 0, "name iterates document.nametypes; docutils sets nameids[name] and nametypes[name] together (document.set_name_id_map / set_duplicate_name_id)");
+  ("myst_parser/mdit_to_docutils/transforms.py", "ResolveAnchorIds.apply", "subscript:self.document.ids[labelid]", 0, "labelid is a non-None value of document.nameids: docutils registers the node under that id in document.ids (set_id)");
+  ("myst_parser/mdit_to_docutils/transforms.py", "ResolveAnchorIds.apply", "subscript:node['refid']", 0, "guarded by 'refid' in node");
+  ("myst_parser/mdit_to_docutils/transforms.py", "ResolveAnchorIds.apply", "subscript:node['names'][0]", 0, "same statement as Sphinx' StandardDomain.process_doc: a target has a refid only after PropagateTargets / IndirectHyperlinks, which register the referenced node under that id and move the target's names to it (O_propagate_targets, exercised by the search over (x)= targets and eval-rst indirect targets)");
+  ("myst_parser/mdit_to_docutils/transforms.py", "ResolveAnchorIds.apply", "subscript:node['names']", 0, "docutils gives every Element the list attributes ids, classes, names, dupnames (Element.list_attributes) and footnotes 'backrefs' (set by nodes.footnote / note_*): the key always exists (see node['names'][0] for the referenced node being present)");
+  ("myst_parser/mdit_to_docutils/transforms.py", "ResolveAnchorIds.apply", "subscript:node[0]", 0, "guarded by 'and node.children'");
+  ("myst_parser/mdit_to_docutils/transforms.py", "ResolveAnchorIds.apply", "subscript:node[0]", 1, "guarded by 'and node.children'");
+  ("myst_parser/mdit_to_docutils/transforms.py", "ResolveAnchorIds.apply", "subscript:refnode['refuri']", 0, "only reference nodes built by render_link_anchor carry id_link (tested just above), and it sets refuri; copy_attributes cannot set id_link from user attributes");
+  ("myst_parser/mdit_to_docutils/transforms.py", "ResolveAnchorIds.apply", "subscript:refnode['refuri']", 1, "only reference nodes built by render_link_anchor carry id_link (tested just above), and it sets refuri; copy_attributes cannot set id_link from user attributes");
+  ("myst_parser/mdit_to_docutils/transforms.py", "ResolveAnchorIds.apply", "subscript:explicit[target]", 0, "guarded by 'target in explicit'");
+  ("myst_parser/mdit_to_docutils/transforms.py", "ResolveAnchorIds.apply", "subscript:slugs[target]", 0, "guarded by 'target in slugs'");
+  ("myst_parser/mdit_to_docutils/transforms.py", "ResolveAnchorIds.apply", "subscript:refnode['classes']", 0, "docutils gives every Element the list attributes ids, classes, names, dupnames (Element.list_attributes) and footnotes 'backrefs' (set by nodes.footnote / note_*): the key always exists");
+  ("myst_parser/mdit_to_docutils/transforms.py", "ResolveAnchorIds.apply", "subscript:refnode[attr]", 0, "attr ranges over ids, names, dupnames: docutils gives every Element the list attributes ids, classes, names, dupnames (Element.list_attributes) and footnotes 'backrefs' (set by nodes.footnote / note_*): the key always exists");
+  ("myst_parser/mdit_to_docutils/transforms.py", "ResolveAnchorIds.apply", "list.remove:refnode.parent.replace", 0, "refnode comes from findall(document): it is a child of its parent");
+  ("myst_parser/parsers/docutils_.py", "Parser.parse", "list.remove:node.parent.replace", 0, "node comes from document.traverse(nodes.raw): it is a child of its parent");
+  ("myst_parser/mocking.py", "MockIncludeDirective.run", "env.relfn2path", 0, "the argument is the directive argument text: markdown-it replaces NUL characters of the source by U+FFFD and directive arguments are not percent-decoded, so no NUL can reach os.path");
   ("myst_parser/inventory.py", "_create_regex", "re.compile", 0,
    "the pattern consists of re.escape()d characters and '.*' only (C19 model of _create_regex)")
 ].
@@ -210,11 +249,27 @@ Definition raise_whitelist : list (string * string * string) := [
 
 (* sites of defects that are open today: (file, function, callee, ordinal, finding signature) *)
 Definition open_sites : list (string * string * string * nat * string) := [
-  (* none today.  (Until commit 3eadb40 the two urlparse() sites of render_link_url and
-     render_link_inventory were listed here: no handler for ValueError "Invalid IPv6 URL".) *)
+  (* a link destination containing %00 is percent-decoded by normalizeLinkText to a NUL character, which
+     os.path (inside sphinx_env.relfn2path) and os.access reject with ValueError; reported to the C12 builder.
+     (Until commit 3eadb40 the two urlparse() sites of render_link_url / render_link_inventory were listed here.) *)
+  ("myst_parser/mdit_to_docutils/sphinx_.py", "SphinxRenderer.render_link_project", "env.relfn2path", 0,
+   "exception:ValueError:mdit_to_docutils/sphinx_.py:render_link_project");
+  ("myst_parser/mdit_to_docutils/sphinx_.py", "SphinxRenderer.render_link_path", "env.relfn2path", 0,
+   "exception:ValueError:mdit_to_docutils/sphinx_.py:render_link_path");
+  ("myst_parser/mdit_to_docutils/sphinx_.py", "SphinxRenderer.render_link_path", "os.access", 0,
+   "exception:ValueError:mdit_to_docutils/sphinx_.py:render_link_path");
+  ("myst_parser/mdit_to_docutils/sphinx_.py", "SphinxRenderer.render_link_unknown", "env.relfn2path", 0,
+   "exception:ValueError:mdit_to_docutils/sphinx_.py:render_link_unknown")
 ].
 
 (* ---------------------------------------------------------------- checker *)
+
+(* a callee key may carry the source text of the expression after a colon ("subscript:node['names']") *)
+Fixpoint base_key (s : string) : string :=
+  match s with
+  | EmptyString => EmptyString
+  | String c r => if Ascii.eqb c ":"%char then EmptyString else String c (base_key r)
+  end.
 
 Definition ancestors (c : string) : option (list string) := lookup c mro.
 
@@ -249,7 +304,7 @@ Definition class_ok (s : site) (e : string) : bool :=
 
 (* the classes of raises(callee) that are neither caught nor declared at s *)
 Definition uncovered (s : site) : list string :=
-  match lookup (s_callee s) raises with
+  match lookup (base_key (s_callee s)) raises with
   | None => ["<unknown callee>"]
   | Some es => filter (fun e => negb (class_ok s e)) es
   end.
@@ -314,7 +369,7 @@ Definition status (s : site) : string :=
   else "checked".
 
 Definition site_lines (s : site) : string :=
-  let es := match lookup (s_callee s) raises with Some es => es | None => ["<unknown callee>"] end in
+  let es := match lookup (base_key (s_callee s)) raises with Some es => es | None => ["<unknown callee>"] end in
   String.concat "" (map (fun e =>
     s_file s ++ "|" ++ s_func s ++ "|" ++ s_callee s ++ "|" ++ nat_str (s_idx s) ++ "|" ++ e ++ "|" ++
     (if predict s e then "1" else "0") ++ "|" ++ status s ++ ";") es).
